@@ -585,11 +585,11 @@ REQ_INV = [req_ok(RC + '.request'), implies('!' + t_empty(RC + '.request'), t_eq
 
 LIFE1 = [K['ENTER'], K['REENTER'], K['EXIT']]
 R_GUARDS = dict(
-    requires_target=R_TARGET + [fresh('currentTransition'), fresh('pendingTransition')],
-    requires=['g_clock < 50000u', 'pendingTransition->_b0.destination == ' + R_REQD, 'pendingTransition->_b0.destination < ' + N, '%s < %s' % (R_ACT, N),
+    requires_target=R_TARGET + ['{fresh:{p0}}', '{fresh:{p1}}'],
+    requires=['g_clock < 50000u', '{p1}->_b0.destination == ' + R_REQD, '{p1}->_b0.destination < ' + N, '%s < %s' % (R_ACT, N),
               # C06 / C07: the guards are shown the outstanding request exactly as it was issued, and the transition accepted so far
-              t_eq('(*pendingTransition)', 'g_lastreq'),
-              implies('g_has_surv', t_eq('(*currentTransition)', 'g_surv')), implies('!g_has_surv', t_default('(*currentTransition)'))],
+              t_eq('(*{p1})', 'g_lastreq'),
+              implies('g_has_surv', t_eq('(*{p0})', 'g_surv')), implies('!g_has_surv', t_default('(*{p0})'))],
     assigns=[RC + '.request', RC + '.planData', 'g_lastreq', 'g_clock'] + marks([K['ENTRY_GUARD'], K['EXIT_GUARD']], (1,)),
     assigns_callee=['g_rounds', 'g_surv', 'g_has_surv', 'g_lasteval'],
     ensures=[# C03: exit guard of the active state first; the entry guard of the destination only if the exit guard did not cancel
@@ -599,8 +599,8 @@ R_GUARDS = dict(
              'g_clock <= __CPROVER_old(g_clock) + 90',
              ('C02', '((%s && %s) || (%s.request._b0.destination < %s && %s.request._b0.method == Method__NONE && %s))'
               % (t_eq(RC + '.request', '__CPROVER_old(%s.request)' % RC), t_eq('g_lastreq', '__CPROVER_old(g_lastreq)'), RC, N, RC, t_eq('g_lastreq', RC + '.request')))],
-    ensures_callee=['g_rounds == __CPROVER_old(g_rounds) + 1', t_eq('g_lasteval', '(*pendingTransition)'),
-                    implies('!__CPROVER_return_value', 'g_has_surv && ' + t_eq('g_surv', '(*pendingTransition)')),
+    ensures_callee=['g_rounds == __CPROVER_old(g_rounds) + 1', t_eq('g_lasteval', '(*{p1})'),
+                    implies('!__CPROVER_return_value', 'g_has_surv && ' + t_eq('g_surv', '(*{p1})')),
                     implies('__CPROVER_return_value', 'g_has_surv == __CPROVER_old(g_has_surv) && ' + t_eq('g_surv', '__CPROVER_old(g_surv)'))])
 
 def life_effect(pre_active, surv_dest):
@@ -760,4 +760,79 @@ UNITS += [
     r_unit('update', 'R___update', R_UPDATE, PHASE_CALLEES_U, ['C05', 'C02', 'C01', 'C11', 'C18'], 0, calls={'R___processRequest': 'contract', 'PlanDataT__clearRegionStatuses': 'contract'}),
     r_unit('react', 'R___react__Ev', R_REACT, PHASE_CALLEES_R, ['C05', 'C02', 'C01', 'C11', 'C18'], 1, calls={'R___processRequest': 'contract', 'PlanDataT__clearRegionStatuses': 'contract'}),
     r_unit('query', 'R___query__Ev', R_QUERY, {'C___deepQuery__Ev': C_QUERY}, ['C05', 'C18'], 1),
+]
+
+# ---- activation / deactivation / replay
+R_EGUARDS = dict(
+    requires_target=R_TARGET + ['{fresh:{p0}}', '{fresh:{p1}}'],
+    requires=['g_clock < 50000u', R_ACT + ' == 255', '%s < %s' % (R_REQD, N),
+              '({p1}->_b0.destination == %s || {p1}->_b0.destination == 255)' % R_REQD,
+              implies('{p1}->_b0.destination != 255', t_eq('(*{p1})', 'g_lastreq')),
+              implies('g_has_surv', t_eq('(*{p0})', 'g_surv')), implies('!g_has_surv', t_default('(*{p0})'))],
+    assigns=[RC + '.request', RC + '.planData', 'g_lastreq', 'g_clock'] + marks([K['ENTRY_GUARD']]),
+    assigns_callee=['g_rounds', 'g_surv', 'g_has_surv', 'g_lasteval'],
+    ensures=[('C03', '%s && g_st[1][0] == 255' % ticked(1, 0)),
+             ('C03', implies('!__CPROVER_return_value', '%s && %s < %s && g_st[1][1] == %s' % (ticked(1, 1), tk(1, 0), tk(1, 1), R_REQD))),
+             'g_clock <= __CPROVER_old(g_clock) + 90',
+             ('C02', '((%s && %s) || (%s.request._b0.destination < %s && %s.request._b0.method == Method__NONE && %s))'
+              % (t_eq(RC + '.request', '__CPROVER_old(%s.request)' % RC), t_eq('g_lastreq', '__CPROVER_old(g_lastreq)'), RC, N, RC, t_eq('g_lastreq', RC + '.request')))],
+    ensures_callee=['g_rounds == __CPROVER_old(g_rounds) + 1',
+                    implies('{p1}->_b0.destination != 255', t_eq('g_lasteval', '(*{p1})')),
+                    implies('!__CPROVER_return_value && {p1}->_b0.destination != 255', 'g_has_surv && ' + t_eq('g_surv', '(*{p1})')),
+                    implies('__CPROVER_return_value || {p1}->_b0.destination == 255', 'g_has_surv == __CPROVER_old(g_has_surv) && ' + t_eq('g_surv', '__CPROVER_old(g_surv)'))])
+
+IE_ASSIGNS = ['__CPROVER_object_whole(self)', 'g_rounds', 'g_surv', 'g_has_surv', 'g_lastreq', 'g_lasteval', 'g_clock', 'g_entered', 'g_root_entered'] + marks([K['ENTRY_GUARD'], K['ENTER']])
+INACTIVE = [R_ACT + ' == 255', '!g_root_entered && g_entered == 255']
+R_IE = dict(
+    requires_target=R_TARGET,
+    requires=['g_clock < ' + BOUND['R'], t_empty(RC + '.request'), 'g_rounds == 0', '!g_has_surv'] + INACTIVE + zero([K['ENTER']]),
+    assigns=IE_ASSIGNS,
+    ensures=[# C04: one evaluation of the initial state's entry guards plus at most LIMIT redirections
+             ('C04', 'g_rounds <= (uint32_t)%s + 1' % LIM),
+             # C14 / C02: the first declared state is the initial state unless an entry guard redirected (last surviving redirect wins)
+             ('C02,C14', '%s == (g_has_surv ? g_surv._b0.destination : 0)' % R_ACT),
+             ('C11', implies('g_has_surv', t_eq(RC + '.previousTransition', 'g_surv'))),
+             ('C11', implies('!g_has_surv', t_empty(RC + '.previousTransition'))),
+             ('C01', '__CPROVER_old(g_clock) < %s && %s < %s && g_st[2][0] == 255 && g_st[2][1] == %s' % (tk(2, 0), tk(2, 0), tk(2, 1), R_ACT)),
+             ('C04', REQ_INV[0]), ('C04', REQ_INV[1])] + INV_POST,
+    loops={0: dict(
+        assigns=['i', 'pendingTransition', 'currentTransition'] + IE_ASSIGNS,
+        invariant=['i <= ' + LIM, 'g_rounds <= (uint32_t)i + 1', 'g_clock <= __CPROVER_loop_entry(g_clock) + 100u * i', 'g_clock >= __CPROVER_loop_entry(g_clock)',
+                   'control._currentTransition == &currentTransition && control._b0._core == &self->_core && control._b0._originId == 255',
+                   implies('g_has_surv', t_eq('currentTransition', 'g_surv') + ' && g_surv._b0.destination < ' + N),
+                   implies('!g_has_surv', t_default('currentTransition')),
+                   R_REQD + ' == (g_has_surv ? g_surv._b0.destination : 0)',
+                   REQ_INV[0], REQ_INV[1]] + INACTIVE + zero([K['ENTER']]),
+        decreases=LIM + ' - i')})
+
+PLANDATA_CLEAR = {'PlanDataT__clear': dict(requires=[], assigns=['*self'], ensures=['!self->planExists'])}
+R_FE = dict(
+    requires_target=R_TARGET,
+    requires=['g_clock < ' + BOUND['R']] + INV + zero([K['EXIT']]),
+    assigns=['__CPROVER_object_whole(self)', 'g_clock', 'g_entered', 'g_root_entered'] + marks([K['EXIT']]),
+    ensures=[('C01', '%s == 255 && %s == 255' % (R_ACT, R_REQD)), ('C01', '!g_root_entered && g_entered == 255'),
+             # deactivation exits the active state and then the root
+             ('C01', '__CPROVER_old(g_clock) < %s && %s < %s && g_st[12][1] == __CPROVER_old(%s) && g_st[12][0] == 255' % (tk(12, 1), tk(12, 1), tk(12, 0), R_ACT)),
+             ('C11', t_empty(RC + '.previousTransition')), ('C02', t_empty(RC + '.request')), ('C09', '!%s.planData.planExists' % RC)])
+
+R_REPLAY = dict(
+    requires_target=R_TARGET,
+    requires=['g_clock < ' + BOUND['R'], '(destination == 255 || destination < %s)' % N, '!g_has_surv'] + INV + zero(LIFE1, (1,)),
+    # C11: no guard is consulted -- no guard mark, no request, no plan status is in the frame
+    assigns=['__CPROVER_object_whole(self)', 'g_clock', 'g_entered', 'g_root_entered'] + marks(LIFE1, (1,)),
+    ensures=[('C11', '__CPROVER_return_value == (destination != 255)'),
+             # replayTransition(invalid) changes nothing (the history may be cleared: the body clears it before testing the id)
+             ('C11', implies('destination == 255', '%s == __CPROVER_old(%s) && %s == 255 && g_clock == __CPROVER_old(g_clock) && %s'
+                             % (R_ACT, R_ACT, R_REQD, t_eq(RC + '.request', '__CPROVER_old(%s.request)' % RC)))),
+             ('C11', implies('destination != 255', '%s == destination && %s.previousTransition._b0.destination == destination && %s.previousTransition._b0.origin == 255 && !%s.previousTransition.payloadSet'
+                             % (R_ACT, RC, RC, RC))),
+             ('C11', t_eq(RC + '.request', '__CPROVER_old(%s.request)' % RC))] + INV_POST
+            + [('C11', implies('destination != 255', x)) for x in life_effect('__CPROVER_old(%s)' % R_ACT, 'destination')])
+
+UNITS += [
+    r_unit('cancelledByEntryGuards', 'R___cancelledByEntryGuards', R_EGUARDS, {'C___deepEntryGuard': c_guard(1, G_REQD, True)}, ['C03', 'C04', 'C07', 'C18'], 2),
+    r_unit('initialEnter', 'R___initialEnter', R_IE, {'R___cancelledByEntryGuards': R_EGUARDS, 'C___deepEnter': C_ENTER},
+           ['C01', 'C02', 'C03', 'C04', 'C06', 'C07', 'C11', 'C14', 'C18'], 0, calls={'R___cancelledByEntryGuards': 'contract'}),
+    r_unit('finalExit', 'R___finalExit', R_FE, dict({'C___deepExit': C_EXIT}, **PLANDATA_CLEAR), ['C01', 'C09', 'C11', 'C18'], 0, calls={'PlanDataT__clear': 'contract'}),
+    r_unit('replayTransition', 'R___replayTransition', R_REPLAY, {'C___deepChangeToRequested': C_CHANGE}, ['C11', 'C01', 'C03', 'C18'], 1),
 ]
